@@ -406,6 +406,11 @@ func (h *handler) processUnaryRpc(
 			Message: st.Proto().GetMessage(),
 			Details: st.Proto().GetDetails(),
 		}
+		if respStatus.Code == int32(codes.OK) {
+			// We know an error *did* occur: never report it to the caller as a
+			// success (same rewrite as serverStream.SendTrailer does for streams).
+			respStatus.Code = int32(codes.Internal)
+		}
 	}
 
 	var respBody *goatorepo.Body
